@@ -578,6 +578,77 @@ func handoff(rng *rand.Rand) {
 	}
 }
 
+// ---------------------------------------------------------------- (d) the dedupe entry has expired
+
+// expiry: a valid VAA is verified, handed over and remembered by the deduplicator (configured with a short
+// expiration through its own option); after the entry has lapsed, copies of the same body with invalid headers arrive.
+func expiry(rng *rand.Rand) {
+	n := 1 + rng.Intn(7)
+	var pool []int
+	for i := 0; i < n; i++ {
+		pool = append(pool, 1+i)
+	}
+	sets := [][]int{pool, {60, 61, 62}}
+	ch := newChain(sets, 1)
+	defer ch.close()
+	ctx, cancel := context.WithCancel(context.Background())
+	defer cancel()
+	gsC := make(chan *common.GuardianSet, 1)
+	drainC(ctx, gsC)
+	gs := guardiansets.NewGuardianSets([]*common.GuardianSet{gsOf(sets[0], 0), gsOf(sets[1], 1)}, ch.srv.URL, zap.NewNop(), time.Hour, ch.addr, gsC)
+	queue := make(chan *processor.Message, 64)
+	c, err := ristretto.NewCache(&ristretto.Config{NumCounters: 10000, MaxCost: 10 * (1 << 20), BufferItems: 64})
+	if err != nil {
+		panic(err)
+	}
+	dd := deduplicator.New(cache.New[bool](store.NewRistretto(c)), zap.NewNop(), deduplicator.WithExpiration(40*time.Millisecond))
+	cons := processor.NewVAAGossipConsumer(gs, dd, queue, zap.NewNop())
+	q := vlib.Quorum(n)
+	all := make([]int, n)
+	for i := range all {
+		all[i] = i
+	}
+	w, v := mkVAA(rng, 0, sets[0], all, "")
+	if err := cons.Push(ctx, v, w); err != nil {
+		r.Violation("expiry:valid-VAA-rejected", map[string]interface{}{"err": err.Error(), "n": n})
+		return
+	}
+	for len(queue) > 0 {
+		<-queue
+	}
+	time.Sleep(120 * time.Millisecond)
+	pl, _ := vlib.ParseWire(w)
+	type variant struct {
+		name    string
+		named   uint32
+		pool    []int
+		pos     []int
+		corrupt string
+	}
+	vs := []variant{{"wrong-signer", 0, sets[0], all, "wrong-sig"}, {"signed-by-other-set-under-this-index", 0, sets[1], []int{0, 1, 2}[:minInt(3, n)], ""},
+		{"names-set-that-does-not-exist", 2 + uint32(rng.Intn(5)), sets[0], all, ""}}
+	if q-1 >= 1 {
+		vs = append(vs, variant{"below-quorum", 0, sets[0], all[:q-1], ""})
+	}
+	if n >= 2 {
+		vs = append(vs, variant{"repeated-signature", 0, sets[0], all, "repeated"})
+	}
+	rng.Shuffle(len(vs), func(i, j int) { vs[i], vs[j] = vs[j], vs[i] })
+	for _, vr := range vs {
+		cw, cv := mkCopy(pl.Body, vr.named, vr.pool, vr.pos, vr.corrupt)
+		errP := cons.Push(ctx, cv, cw)
+		r.Count("expiry_invalid_copies_pushed", 1)
+		for len(queue) > 0 {
+			m := <-queue
+			pw, err := vlib.ParseWire(m.VerifSerialized())
+			if err != nil || pw.SetIndex != 0 || pw.CheckQuorumSigned(keysOf(sets[0])) != nil {
+				r.Violation("expiry:invalid-copy-of-an-already-verified-message-queued:"+vr.name, map[string]interface{}{"n": n, "push_error": fmt.Sprint(errP)})
+			}
+		}
+	}
+	r.Count("expiry_scenarios", 1)
+}
+
 func minInt(a, b int) int {
 	if a < b {
 		return a
@@ -606,7 +677,10 @@ func main() {
 	for i := 0; i < r.Pick(20, 300); i++ {
 		handoff(rng)
 	}
-	r.Count("evaluations", r.GetCount("pushes")+r.GetCount("lookup_ops")+r.GetCount("handoff_scenarios"))
+	for i := 0; i < r.Pick(20, 300); i++ {
+		expiry(rng)
+	}
+	r.Count("evaluations", r.GetCount("pushes")+r.GetCount("lookup_ops")+r.GetCount("handoff_scenarios")+r.GetCount("expiry_scenarios"))
 	if r.GetCount("valid_accepted") == 0 || r.GetCount("queued_checked") == 0 || r.GetCount("histories_checked") == 0 {
 		r.Inconclusive("the gate never accepted a valid VAA or no lookup history was checked")
 	}
@@ -615,5 +689,5 @@ func main() {
 	}
 	r.Assume("the core contract is a JSON-RPC stub answering eth_call for getCurrentGuardianSetIndex/getGuardianSet like the contract (zero value for unknown indices)",
 		"the explorer is built against the node module version its go.mod pins (as the real binary is)")
-	r.Finish("evaluations", "gate_cases", "(a) VAAs naming an old, the current, a not-yet-known and a nonexistent set, signed by q-1/q/all members of the named or of another set, with wrong / unordered / repeated signatures, for set sizes 1..19: whatever reaches the queue must verify against the set it names; (b) 8 goroutines doing Get(i)/Current()/Append over 24 sets, results checked against ground truth, histories checked with porcupine, -race; (c) push on a full queue, then invalid copies of the same message (under-signed, wrong signer, repeated signature, nonexistent set), then the retry; distinct non-trivial = distinct gate case shapes", 20)
+	r.Finish("evaluations", "gate_cases", "(a) VAAs naming an old, the current, a not-yet-known and a nonexistent set, signed by q-1/q/all members of the named or of another set, with wrong / unordered / repeated signatures, for set sizes 1..19: whatever reaches the queue must verify against the set it names; (b) 8 goroutines doing Get(i)/Current()/Append over 24 sets, results checked against ground truth, histories checked with porcupine, -race; (c) push on a full queue, then invalid copies of the same message (under-signed, wrong signer, repeated signature, nonexistent set), then the retry; (d) a handed-over VAA whose dedupe entry (40 ms expiration via the deduplicator's own option) has lapsed, then invalid copies of the same body; distinct non-trivial = distinct gate case shapes", 20)
 }
